@@ -138,13 +138,14 @@ func NewSafeMapDataProvider[T any](m map[string]T) DataProvider {
 
 func newSafeMapDataProvider[T any](m map[string]T, tag *string) DataProvider {
 	if len(m) == 0 {
-		return &EmptyDataProvider{}
+		return &EmptyDataProvider{tag: tag}
 	}
 	return NewMapDataProvider(m, tag)
 }
 
 type EmptyDataProvider struct {
 	Underlying any
+	tag        *string
 }
 
 func (e *EmptyDataProvider) Get(key string) any {
@@ -152,7 +153,8 @@ func (e *EmptyDataProvider) Get(key string) any {
 }
 
 func (e *EmptyDataProvider) GetByField(field reflect.StructField, fallback string) (any, string) {
-	return nil, fallback
+	// there is no data, but the key (used for the issue path) must be the same one a non-empty record would use
+	return nil, GetKeyFromField(field, fallback, e.tag)
 }
 
 func (e *EmptyDataProvider) GetNestedProvider(key string) DataProvider {
@@ -175,7 +177,7 @@ func TryNewAnyDataProviderWithTag(val any, tag *string) (DataProvider, error) {
 		return dp, nil
 	}
 	if val == nil {
-		return &EmptyDataProvider{Underlying: val}, nil
+		return &EmptyDataProvider{Underlying: val, tag: tag}, nil
 	}
 	x := reflect.ValueOf(val)
 	switch x.Kind() {
@@ -208,7 +210,7 @@ func TryNewAnyDataProviderWithTag(val any, tag *string) (DataProvider, error) {
 
 	case reflect.Pointer:
 		if x.IsNil() {
-			return &EmptyDataProvider{}, nil
+			return &EmptyDataProvider{tag: tag}, nil
 		}
 		return TryNewAnyDataProviderWithTag(x.Elem().Interface(), tag)
 
